@@ -43,7 +43,10 @@ def describe(tier, seed):
 
 def replay_case(case):
     acc = core.Acc()
-    isocheck.check_conformance(case, acc, 'c02')
+    if 'alt' in case:
+        isocheck.check_sequence(case, acc, isocheck.check_conformance, 'c02')
+    else:
+        isocheck.check_conformance(case, acc, 'c02')
     return acc
 
 
